@@ -116,6 +116,12 @@ func ToSignedState(protoSignedState *SignedState) (signedState channel.SignedSta
 	}
 	signedState.Sigs = make([][]byte, len(protoSignedState.GetSigs()))
 	for i := range protoSignedState.GetSigs() {
+		// An empty signature is an unsigned slot. It stays nil, as it does in
+		// the native encoding: signed slots are told from unsigned ones by
+		// sig != nil.
+		if len(protoSignedState.GetSigs()[i]) == 0 {
+			continue
+		}
 		signedState.Sigs[i] = make([]byte, len(protoSignedState.GetSigs()[i]))
 		copy(signedState.Sigs[i], protoSignedState.GetSigs()[i])
 	}
